@@ -1,6 +1,117 @@
-/- Driver/C02 — stub until the property's model driver is written. -/
+/-
+Driver/C02 — runs the parser front ends of Model/ParseGuards on the harness' request stream.
+
+  seed <id> <hex>                                  remember a seed                         → ok
+  cfg name=value …                                 struct sizes printed by the harness      → ok
+  run <parser> <seed> <edits|-> c=<c> k=<k> cap=<cap> obs=<class>
+      edits: comma list of  t<n> (truncate) | p<off>:<hex> (overwrite) | a<hex> (append)
+      → `<class> big=<0|1>`: class = panic / err where the front end decides, `abort` when a
+        front-end allocation exceeds the worker's cap, otherwise (front end passes, or the parser
+        has no front-end model) the observed class is repeated; big = a front-end allocation
+        exceeds c·len+k or a capped one exceeds MAX_DECOMPRESSION_SIZE.
+-/
 import Driver.Common
-open Drv
+import Cascette.Model.ParseGuards
+import Cascette.Model.Integrity
+import Cascette.Spec.Md5
+open Cascette Drv
+open Cascette.Model.ParseGuards
+
+structure St where
+  seeds : List (String × Bytes) := []
+  sizes : List (String × Nat) := []
+
+def St.size (s : St) (n : String) : Nat := (s.sizes.lookup n).getD 0
+
+def kv (t : String) : Option (String × String) :=
+  match t.splitOn "=" with
+  | [a, b] => some (a, b)
+  | _ => none
+
+def kvNat (t : String) (key : String) : Option Nat :=
+  match kv t with
+  | some (a, b) => if a == key then b.toNat? else none
+  | none => none
+
+def applyEdit (d : Bytes) (e : String) : Option Bytes :=
+  match e.toList with
+  | 't' :: r => (String.ofList r).toNat?.map (fun n => d.take n)
+  | 'a' :: r => (parseHex (String.ofList r)).map (fun x => d ++ x)
+  | 'p' :: r =>
+    match (String.ofList r).splitOn ":" with
+    | [o, h] =>
+      match o.toNat?, parseHex h with
+      | some o, some x =>
+        -- only the part that fits is written
+        let x := x.take (d.length - o)
+        if o ≤ d.length then some (d.take o ++ x ++ d.drop (o + x.length)) else some d
+      | _, _ => none
+    | _ => none
+  | _ => none
+
+def applyEdits (d : Bytes) (es : String) : Option Bytes :=
+  if es == "-" then some d
+  else (es.splitOn ",").foldl (fun acc e => acc.bind (fun d => applyEdit d e)) (some d)
+
+def md5H : Model.Integrity.Hash := Spec.Md5.md5
+
+/-- `ShmemControlBlock::from_mapped` around `PidTracking::from_mapped`. -/
+def shmemFront (b : Bytes) : Front :=
+  if b.length < 0x150 then .error
+  else
+    let v := Model.Integrity.byteAt b 0
+    if v < 4 ∨ 5 < v then .error
+    else if 5 ≤ v ∧ 0x258 ≤ b.length then Local.shmemPidFront (b.drop 0x154)
+    else { verdict := .pass }
+
+/-- front end of a parser, `none` when the parser has no front-end model (oracle-only). -/
+def frontOf (s : St) (parser : String) (d : Bytes) : Option Front :=
+  match parser with
+  | "blte" => some (Blte.front d)
+  | "encoding" => some (Enc.front (s.size "enc_idx") (s.size "enc_pagec") (s.size "enc_pagee") d)
+  | "install" => some (Manifest.installFront (s.size "in_tag") (s.size "in_entry") d)
+  | "download" => some (Manifest.downloadFront (s.size "dl_entry") (s.size "dl_tag") d)
+  | "size" => some (Manifest.sizeFront (s.size "in_tag") (s.size "sz_entry") d)
+  | "pindex" => some (PIndex.front d)
+  | "zbsdiff" => some (Zbs.front d)
+  | "zbsparse" => some (Zbs.front d)
+  | "shmem" => some (shmemFront d)
+  | "idx" => some (Local.idxFront d).1
+  | "aidx" | "agroup" | "aidxc" =>
+    match Model.Integrity.Aidx.footerCheck md5H (parser != "aidxc") d with
+    | .panic => some { verdict := .panic }
+    | .pass .. => some { verdict := .pass }
+    | _ => some .error
+  | _ => none
+
+def step (s : St) (t : List String) : St × String :=
+  match t with
+  | ["seed", id, h] =>
+    match parseHex h with
+    | some d => ({ s with seeds := (id, d) :: s.seeds.filter (·.1 != id) }, "ok")
+    | none => (s, "bad-op")
+  | "cfg" :: rest =>
+    let kvs := rest.filterMap (fun x => (kv x).bind (fun (a, b) => b.toNat?.map (fun n => (a, n))))
+    if kvs.length = rest.length then ({ s with sizes := kvs ++ s.sizes }, "ok") else (s, "bad-op")
+  | ["run", parser, sid, es, c, k, cap, obs] =>
+    match s.seeds.lookup sid, kvNat c "c", kvNat k "k", kvNat cap "cap", kv obs with
+    | some seed, some c, some k, some cap, some ("obs", o) =>
+      match applyEdits seed es with
+      | none => (s, "bad-op")
+      | some d =>
+        match frontOf s parser d with
+        | none => (s, s!"{o} big=0")                -- oracle-only parser: nothing predicted
+        | some f =>
+          let abort := (f.allocs ++ f.capped).any (fun a => decide (cap < a))
+          let cls := if abort then "abort" else
+            match f.verdict with
+            | .panic => "panic"
+            | .err => "err"
+            | .pass => o
+          let big := f.big c k d.length
+          (s, s!"{cls} big={if big then 1 else 0}")
+    | _, _, _, _, _ => (s, "bad-op")
+  | _ => (s, "bad-op")
 
 def main : IO Unit := do
-  loopPure (← IO.getStdin) (← IO.getStdout) (fun _ => "bad-op")
+  loopState (← IO.getStdin) (← IO.getStdout) step ({} : St)
